@@ -90,6 +90,7 @@ type LockIP struct {
 	// during the call (time.AfterFunc ...)
 	async []Matcher
 	named []*types.Named
+	reacq map[reacqKey]*LockFacts
 	ctor  map[*ssa.Function]map[string]string
 	alias map[*ssa.Function]map[string]string
 	// caller whose alias table normalises translated paths (set by toCaller)
@@ -101,7 +102,8 @@ func NewLockIP(p *Prog, funcs []*ssa.Function) *LockIP {
 	ip := &LockIP{P: p, inScope: map[*ssa.Function]bool{}, sum: map[*ssa.Function]*lockSum{}, classOf: map[string]string{},
 		may: map[*ssa.Function]*LockFacts{}, must: map[*ssa.Function]*LockFacts{}, entry: map[*ssa.Function]LockState{},
 		root: map[*ssa.Function]bool{}, impls: map[string][]*ssa.Function{},
-		ctor: map[*ssa.Function]map[string]string{}, alias: map[*ssa.Function]map[string]string{},
+		reacq: map[reacqKey]*LockFacts{},
+		ctor:  map[*ssa.Function]map[string]string{}, alias: map[*ssa.Function]map[string]string{},
 		async: []Matcher{M("time", "", "AfterFunc"), M("context", "", "AfterFunc")}}
 	for _, f := range funcs {
 		if !ip.inScope[f] && f.Blocks != nil {
@@ -1248,7 +1250,7 @@ func (ip *LockIP) acquisitions() {
 // acqAt: acquisitions performed by call c of fn, in fn's terms.
 func (ip *LockIP) acqAt(fn *ssa.Function, c ssa.CallInstruction) []LockAcq {
 	if op, cl, ok := ip.prim(c); ok {
-		if !op.Acquire {
+		if !op.Acquire || ip.isReacquire(fn, c, op.Path) {
 			return nil
 		}
 		return []LockAcq{{Path: op.Path, Class: cl, Mode: op.Mode, Site: c, Via: []string{FuncName(fn)}}}
@@ -1284,6 +1286,32 @@ func (ip *LockIP) acqAt(fn *ssa.Function, c ssa.CallInstruction) []LockAcq {
 		}
 	}
 	return out
+}
+
+// isReacquire: the acquisition closes an unlock/relock window: fn released
+// the (caller-held) lock itself on every path to c, so taking it again is not
+// a re-entrant acquisition even when the caller holds it around the call.
+func (ip *LockIP) isReacquire(fn *ssa.Function, c ssa.CallInstruction, path string) bool {
+	k := reacqKey{fn, path}
+	lf, ok := ip.reacq[k]
+	if !ok {
+		if !ip.foreignReleases(fn, nil)[path] {
+			ip.reacq[k] = nil
+			return false
+		}
+		lf = ip.flow(fn, LockState{path: LWrite}, false, nil)
+		ip.reacq[k] = lf
+	}
+	if lf == nil {
+		return false
+	}
+	st, reach := lf.Before[c]
+	return reach && st[path] == LNone
+}
+
+type reacqKey struct {
+	fn   *ssa.Function
+	path string
 }
 
 // AcqAt returns the locks that call c may acquire while it runs (directly or
